@@ -497,8 +497,11 @@ def process_unit(unit, tier, keep=False, verbose=False, seed=0):
         r.status = "violation"
     elif not vres.get("success"):
         r.status, r.reason = "undecided", "verus reported failure without diagnostics"
-    # ---- vacuity guards
-    if r.status == "ok":
+    # ---- vacuity guards (also when the only failures are recorded findings)
+    known_all0 = {k["obligation"] for k in load_known().get("findings", [])}
+    ids0 = {obligation_id(unit, f) for f in r.failures}
+    known_only0 = r.status == "violation" and bool(ids0) and ids0 <= known_all0
+    if r.status == "ok" or known_only0:
         if undeclared:
             r.status, r.reason = "undecided", f"assumption scan: undeclared trusted items {undeclared}"
         # twin: every TWIN splice must be reported as a failing assertion
@@ -526,7 +529,12 @@ def process_unit(unit, tier, keep=False, verbose=False, seed=0):
             if r.verified < base.get("verified", 0):
                 r.status, r.reason = "undecided", f"obligation count dropped: {r.verified} < baseline {base['verified']}"
     # ---- thorough: negative controls + seeds
-    if tier == "thorough" and r.status == "ok":
+    # failures that are ALL recorded in known_findings.json do not stop the negative controls / seed runs; a control
+    # then counts as rejected only if it produces a failing obligation that the unmutated text does not have
+    known_all = {k["obligation"] for k in load_known().get("findings", [])}
+    base_fail_ids = {obligation_id(unit, f) for f in r.failures}
+    known_only = r.status == "violation" and bool(base_fail_ids) and base_fail_ids <= known_all
+    if tier == "thorough" and (r.status == "ok" or known_only):
         jobs = []
         for idx, it in enumerate(gen["items"]):
             for m in it.mutants:
@@ -551,6 +559,7 @@ def process_unit(unit, tier, keep=False, verbose=False, seed=0):
                 return (label, name, True, "proof no longer goes through (rlimit): " + norm("; ".join(tool), 120))
             if tool:
                 return (label, name, None, "tool: " + norm("; ".join(tool), 200))
+            fails = [f for f in fails if obligation_id(unit, f) not in base_fail_ids]
             return (label, name, bool(fails), "; ".join(sorted({f['fn'] + ': ' + f['kind'] for f in fails}))[:300])
 
         with cf.ThreadPoolExecutor(max_workers=6) as ex:
@@ -559,12 +568,16 @@ def process_unit(unit, tier, keep=False, verbose=False, seed=0):
                 if killed is not True:
                     r.status, r.reason = "undecided", f"negative control '{label}' in {name} was not rejected ({info}) -- contract too weak or control stale"
         # stability: two more solver seeds and a tighter rlimit must still prove everything
-        if r.status == "ok":
+        if r.status == "ok" or (known_only and r.status == "violation"):
             def run_seed(s):
                 return s, run_verus(main_path, ["--smt-option", f"smt.random_seed={s}", "--smt-option", f"sat.random_seed={s}", "--rlimit", "5"])
             with cf.ThreadPoolExecutor(max_workers=2) as ex:
                 for s, v in ex.map(run_seed, [seed * 2 + 11, seed * 2 + 12]):
                     ok = bool(v["json"] and v["json"].get("verification-results", {}).get("success"))
+                    if known_only and v["json"]:
+                        sf = [attribute(gen, d, fn_ranges(gen["text"])) for d in v["diags"] if classify_diag(d) == "verif"]
+                        stool = [d for d in v["diags"] if classify_diag(d) == "tool"]
+                        ok = not stool and {obligation_id(unit, f) for f in sf} <= base_fail_ids
                     r.seeds.append({"random_seed": s, "rlimit": 5, "success": ok})
                     if not ok:
                         r.status, r.reason = "undecided", f"proof unstable: fails with smt.random_seed={s} at rlimit 5"
@@ -698,8 +711,12 @@ def cmd_run(a):
         mutants += [dict(m, unit=r.unit) for m in r.mutants]
         seeds += [dict(s, unit=r.unit) for s in r.seeds]
     # shared fragments are included by several units: every function / clause is counted ONCE per property
-    total_obl = len(distinct_fns) + sum(distinct_clauses.values())
-    total_dis = 0 if undecided_units else max(0, total_obl - len(all_failed))
+    total_all = len(distinct_fns) + sum(distinct_clauses.values())
+    # an obligation listed in known_findings.json is a recorded defect of /repo, not part of what is claimed proved:
+    # it is taken out of the obligation count and reported under coverage.known_findings
+    known_failed = {oid.split("::", 1)[1] for oid in known_ids if oid.split("::", 1)[1] in all_failed}
+    total_obl = total_all - len(known_failed)
+    total_dis = 0 if undecided_units else max(0, total_all - len(all_failed))
     # samples: a few obligations written out
     seen_s = set()
     for r in results:
@@ -746,6 +763,8 @@ def cmd_run(a):
             "not_decided": pinfo.get("not_decided", []),
             "bounded": pinfo.get("bounded", []),
             "failed_obligations": [obligation_id(r.unit, f) for r in results for f in r.failures],
+            "known_findings": [{"obligation": k["obligation"], "what": k.get("what", "")} for k in known_ids.values() if k["obligation"].split("::", 1)[1] in all_failed],
+            "obligations_including_known_findings": total_all,
         },
         "assumptions": idx.get("assumptions_common", []) + pinfo.get("assumptions", []),
         "wall_s": round(wall, 2),
